@@ -27,6 +27,10 @@ func runFileLog() {
 	scens = append(scens, scen{"new-file", nil, false, [][]any{{"a"}, {"b", 1, "c"}, {""}}})
 	scens = append(scens, scen{"previous-content", []byte("old line 1\nold line 2\n"), true, [][]any{{"x"}, {"y"}}})
 	scens = append(scens, scen{"previous-no-newline", []byte("partial"), true, [][]any{{"x"}}})
+	// single string operands that themselves end in a line feed or CR LF (an I/O log line of a text register whose
+	// value ends so), empty strings, a lone line feed, non-string single operands
+	scens = append(scens, scen{"lines-ending-in-newline", []byte("prev\n"), true,
+		[][]any{{"ends in lf\n"}, {"ends in crlf\r\n"}, {"\n"}, {""}, {"plain"}, {42}, {[]byte("bytes\n")}, {"two\n", "operands\n"}}})
 	for _, n := range []int{4095, 4096, 4097, 5000, 9000, 20000} {
 		scens = append(scens, scen{fmt.Sprintf("long-%d", n), []byte("prev\n"), true,
 			[][]any{{"short1"}, {"short2"}, {long(n, 'L')}, {"short3"}, {long(n, 'M'), long(10, 'z')}, {"short4"}}})
